@@ -135,3 +135,7 @@ def run(ctx):
                  'a zero divisor is a SIGFPE on an accepted instance')
     shared.rule_divisors(ctx, P, r)
     r.require_min(3)
+
+    # ---------------- R05c XOR shape whitelist (shared with C05)
+    from . import c05
+    c05.rule_whitelist(ctx, P)
